@@ -111,6 +111,11 @@ Theorem C01_exact_read : forall capf kind a1 a2 a3,
     sticky (ops_of cb1 l1 cc1 ++ ops_of cb2 l2 cc2 ++ ops_of cb3 l3 cc3).
 Proof. exact roundtrip_safe. Qed.
 
+(* tie to the source: the state predicates used by the writer and reader models are the
+   functions regenerated from fragmenting_writer.go / fragmenting_reader.go on this run *)
+Theorem C01_state_predicates : forall s, is_writing s = isWritingArgument s /\ is_reading s = isReadingArgument s.
+Proof. exact (fun s => conj (is_writing_generated s) (is_reading_generated s)). Qed.
+
 Print Assumptions C01_writer.
 Print Assumptions C01_reader_eof.
 Print Assumptions C01_roundtrip.
